@@ -83,6 +83,7 @@ func TestReplay(t *testing.T) {
 		}
 		conn := srv.MustDial()
 		defer conn.Close()
+		conn.MustDo("SET", "hyg", "o", "POINT", "1", "2")
 		c.Case()
 		runHygiene(t, c, conn, d.Case)
 	case "lockprobe":
@@ -91,6 +92,20 @@ func TestReplay(t *testing.T) {
 		runSandbox(t, c)
 	case "poison":
 		probePoison(t, c)
+		probeLeftover(t, c)
+	case "poolgrowth":
+		var d struct {
+			Case growCase `json:"case"`
+		}
+		if err := json.Unmarshal(doc.Data, &d); err != nil || d.Case.N == 0 {
+			t.Fatalf("bad replay data: %v", err)
+		}
+		srv := mustStart(t, t38.Opts{})
+		defer srv.StopAsync()
+		for i := 0; i < 3; i++ {
+			c.Case()
+			runGrow(t, c, srv, d.Case)
+		}
 	default:
 		t.Fatalf("unknown check %q", doc.Check)
 	}
